@@ -61,13 +61,19 @@ def bounds(tier):
         "max_len_2x3_letters_rectangular_matrix": L[(2, 3)],
         "max_len_code_width_combinations": L["width"],
         "matrix_families": FAMS + RECT_FAMS,
-        "matrix_variants_per_family": 1 if tier == "quick" else "2 (3-letter setup: 1)",
+        "matrix_variants_per_family": 1 if tier == "quick" else "2 for the 2-letter setup, 1 otherwise",
+        "max_number_3_letter_setup": list(_max_numbers(tier, 3, 3)),
         "gap_penalties": [I.gap_json(g) for g in I.GAPS],
         "refused_gap_penalties": [I.gap_json(g) for g in BAD_GAPS],
         "modes": list(MODES),
         "max_number": list(MAX_NUMBERS),
         "code_width_pairs": 16,
     }
+
+
+def _max_numbers(tier, k1, k2):
+    # the thorough 3-letter space (14 641 pairs) runs without max_number=2
+    return (1, 1000) if (tier == "thorough" and (k1, k2) == (3, 3)) else MAX_NUMBERS
 
 
 def _variants(tier, seed):
@@ -80,15 +86,16 @@ def shards(tier, seed):
     for vi, variant in enumerate(_variants(tier, seed)):
         embed = (seed + variant) % 4
         for (k1, k2), fams in (((2, 2), FAMS), ((3, 3), FAMS), ((2, 3), RECT_FAMS)):
-            if (k1, k2) == (3, 3) and vi > 0:
-                continue  # the 3-letter space is the largest; one variant per run
+            if (k1, k2) != (2, 2) and vi > 0:
+                continue  # second matrix variant only for the 2-letter setup (time budget)
             ln = L[(k1, k2)]
             npairs = (sum(k1**i for i in range(ln + 1))) * (sum(k2**i for i in range(ln + 1)))
             parts = max(1, round(npairs / 400))
             for fam in fams:
                 for part in range(parts):
                     out.append({"kind": "opt", "k": [k1, k2], "len": ln, "fam": fam, "variant": variant,
-                                "embed": embed, "part": part, "parts": parts, "w": npairs / parts})
+                                "embed": embed, "part": part, "parts": parts, "w": npairs / parts,
+                                "max_numbers": list(_max_numbers(tier, k1, k2))})
     v0 = seed % 3
     for d1 in DTYPES:
         for d2 in DTYPES:
@@ -304,7 +311,7 @@ def run_shard(shard, ctx):
         part, parts = 0, 1
     else:
         envs = [I.Env(k1, k2, shard["fam"], shard["variant"], shard["embed"])]
-        gaps, mns = I.GAPS, MAX_NUMBERS
+        gaps, mns = I.GAPS, tuple(shard.get("max_numbers", MAX_NUMBERS))
         part, parts = shard["part"], shard["parts"]
     seqs1 = I.sequences(k1, shard["len"])
     seqs2 = I.sequences(k2, shard["len"])
